@@ -7,6 +7,7 @@ import (
 	"time"
 
 	"kmc/core"
+	"kmc/jr"
 	"kmc/ref"
 
 	"github.com/sboehler/knut/lib/common/date"
@@ -104,6 +105,37 @@ func fmtDates(ds []time.Time) string {
 	return "[" + strings.Join(ss, " ") + "]"
 }
 
+// c11Command: the same statement through the flag layer and the report: a journal with one
+// booking of 2^i CHF on each of 15 consecutive days around a year end (so that a cell tells
+// exactly which days it contains) is reported by the real `balance` for every --from/--to
+// pair over those days (and open ends) x interval x --last x --diff; columns and cells are
+// compared with the reference ledger, whose periods come from the calendar reference.
+func c11Command(e *core.Env) {
+	drv := e.Driver()
+	var body []jr.Dir
+	var dates []string
+	d0 := day(2020, 12, 24)
+	for i := 0; i < 15; i++ {
+		d := iso(d0.AddDate(0, 0, i))
+		dates = append(dates, d)
+		body = append(body, jr.T(d, "d", jr.B("Equity:Opening", "Assets:Bank:Checking", fmt.Sprint(1<<i), "CHF")))
+	}
+	cfgs := windowCfgs(dates, false)
+	e.Note("command level: 15 daily bookings, %d window/interval/--last/--diff combinations", len(cfgs))
+	for _, cfg := range cfgs {
+		if !e.Take() {
+			continue
+		}
+		key, detail, _ := c02One(drv, body, cfg)
+		e.Count("evaluations")
+		e.Count("command_runs")
+		if key != "" {
+			cs := balCase{Body: body, Cfg: cfg}
+			e.Violation("C11:command:"+strings.TrimPrefix(key, "C02:"), detail, cs, func() bool { k, _, _ := c02One(drv, cs.Body, cs.Cfg); return k == key })
+		}
+	}
+}
+
 func c11Run(e *core.Env) {
 	lasts := []int{0, 1, 2, 3, 50}
 	check := func(s, en time.Time, probes []time.Time) {
@@ -158,6 +190,28 @@ func c11Run(e *core.Env) {
 			}
 		}
 	}
+	// window A3: spans of centuries (arithmetic on durations and day counts must not
+	// overflow or be estimated): daily only for the 300-year span
+	for _, w := range [][2]time.Time{{day(1700, 1, 1), day(1992, 4, 12)}, {day(1700, 1, 1), day(2023, 12, 31)}, {day(1000, 1, 1), day(3000, 12, 31)}, {day(1, 1, 1), day(9999, 12, 31)}} {
+		pr := []time.Time{w[0].AddDate(0, 0, -1), w[0], w[0].AddDate(0, 0, 1), w[0].AddDate(0, 0, 40), w[1].AddDate(0, 0, -1), w[1], w[1].AddDate(0, 0, 1), day(1706, 3, 31), day(1992, 4, 11)}
+		for _, iv := range intervals {
+			if iv == date.Daily && w[1].Year()-w[0].Year() > 350 {
+				continue
+			}
+			for _, last := range []int{0, 1, 3} {
+				if !e.Take() {
+					continue
+				}
+				key, detail, n := c11One(w[0], w[1], iv, last, pr)
+				e.Count("evaluations")
+				e.Add("transitions", n)
+				if key != "" {
+					e.Violation("C11:"+key+":"+iv.String()+":long-span", detail, c11Case{iso(w[0]), iso(w[1]), iv.String(), last, ""}, nil)
+				}
+			}
+		}
+	}
+	c11Command(e)
 	if !e.Thorough() {
 		return
 	}
@@ -198,6 +252,11 @@ func c11Run(e *core.Env) {
 }
 
 func c11Replay(e *core.Env, data json.RawMessage) (bool, string) {
+	var bc balCase
+	if err := json.Unmarshal(data, &bc); err == nil && len(bc.Body) > 0 {
+		key, detail, _ := c02One(e.Driver(), bc.Body, bc.Cfg)
+		return key != "", key + " " + detail
+	}
 	var cs c11Case
 	if err := json.Unmarshal(data, &cs); err != nil {
 		return false, err.Error()
